@@ -98,7 +98,9 @@ func c09Directed() []c09Entry {
 		mk("orphan adoption, release of a non-matching pod, identity update", world.SetOpts{Replicas: 4, Policy: asv1.ParallelPodManagement, HistLimit: 2}, func(r *world.Runner) {
 			convergeQuietly(r)
 			w := r.W
+			// two orphans: the fresh confirmation is asked for once per reconcile and its answer must hold for both
 			w.Srv.Mutate(simapi.Pods, world.NS, "web-0", func(o runtime.Object) { o.(*corev1.Pod).OwnerReferences = nil })
+			w.Srv.Mutate(simapi.Pods, world.NS, "web-2", func(o runtime.Object) { o.(*corev1.Pod).OwnerReferences = nil })
 			// (the released pod has the highest ordinal: its name stays squatted, and a Parallel pass stops at the
 			// failed re-create of that ordinal, which must come after the identity update of a lower one)
 			w.Srv.Mutate(simapi.Pods, world.NS, "web-3", func(o runtime.Object) { o.(*corev1.Pod).Labels["app"] = "other" })
